@@ -855,6 +855,23 @@ pub fn nl(args: &Args) -> i32 {
     let all: Vec<u8> = (0..=255).collect();
     let ring: Vec<(u8, u8)> = (0..=255u8).map(|u| (u, u.wrapping_add(1))).collect();
     nl_event(&mut out, &ring, &none, true, &all);
+    // the largest fan-in the format allows: every character (the hub included, or all but the hub) names one hub;
+    // two hubs sharing the characters; a hub that hangs below a second one
+    for hub in [0u8, 77, 255] {
+        let star: Vec<(u8, u8)> = (0..=255u8).map(|u| (u, hub)).collect();
+        nl_event(&mut out, &star, &none, true, &all);
+        let mut rev = star.clone();
+        rev.reverse();
+        nl_event(&mut out, &rev, &none, true, &all);
+        let open_star: Vec<(u8, u8)> = (0..=255u8).filter(|&u| u != hub).map(|u| (u, hub)).collect();
+        nl_event(&mut out, &open_star, &none, true, &all);
+        let two: Vec<(u8, u8)> = (0..=255u8).map(|u| (u, if u % 2 == 0 { hub } else { hub ^ 1 })).collect();
+        nl_event(&mut out, &two, &none, true, &all);
+        let hang: Vec<(u8, u8)> = (0..=255u8).filter(|&u| u != (hub ^ 1)).map(|u| (u, if u == hub { hub ^ 1 } else { hub })).collect();
+        nl_event(&mut out, &hang, &none, true, &all);
+        nltags_event(&mut out, "tfm", &star, &none);
+        nltags_event(&mut out, "pl", &open_star, &none);
+    }
     // random functional graphs on up to 256 characters
     for i in 0..n {
         let density = [30u64, 70, 100][i % 3];
